@@ -176,6 +176,104 @@ example : split (fun x => x == 0) true (some 1) [1, 0, 0] = [[1]] := by decide
 example : split (fun x => x == 0) false (some 0) [1, 0, 2] = [[1, 0, 2]] := by decide
 example : split (fun x => x == 0) false none [0, 1, 0, 0, 2] = [[], [1], [], [2]] := by decide
 
+/-! ### split with a `maxsplit`: complete characterisation -/
+
+/-- explicit separator, `maxsplit = m`: exactly `min(#separators, m)` cuts are made, and no piece
+    except the last contains a separator -/
+theorem split_sep_maxsplit_pieces (p : α → Bool) (m : Nat) (src : List α) :
+    (split p false (some (m : Int)) src).length = min (src.countP p) m + 1 ∧
+    ∀ g ∈ (split p false (some (m : Int)) src).dropLast, ∀ x ∈ g, p x = false := by
+  rw [split_eq_pySplit]
+  have := pySplitSep_pieces p (some m) src
+  simpa [pySplit, cuts] using this
+
+/-- ... and these facts pin the result down: ANY list of pieces that joins back to the input with the
+    separator, has the right number of pieces and no separator in any piece but the last IS what
+    `split` returns (so `split` is the unique inverse of `sep.join` with at most `m` cuts, like `str.split`) -/
+theorem split_sep_unique [DecidableEq α] (s : α) (m : Nat) (src : List α) (out : List (List α))
+    (hjoin : [s].intercalate out = src)
+    (hfree : ∀ g ∈ out.dropLast, ∀ x ∈ g, x ≠ s)
+    (hlen : out.length = min (src.countP (fun x => decide (x = s))) m + 1) :
+    out = split (fun x => decide (x = s)) false (some (m : Int)) src := by
+  rw [split_eq_pySplit]
+  have hne : out ≠ [] := by intro h; simp [h] at hlen
+  have hcore := pySplitSep_unique_core s out src hne hjoin hfree
+  simp only [pySplit, Option.map_some, Int.toNat_natCast, Bool.false_eq_true, ↓reduceIte]
+  rw [hcore, hlen, Nat.add_sub_cancel]
+  by_cases hm : m ≤ src.countP (fun x => decide (x = s))
+  · rw [Nat.min_eq_right hm]
+  · have hm' : src.countP (fun x => decide (x = s)) ≤ m := by omega
+    rw [Nat.min_eq_left hm', pySplitSep_enough _ _ _ (Nat.le_refl _), pySplitSep_enough _ _ _ hm']
+
+/-- `sep=None` with `maxsplit = m`: the first `m` words are the first `m` words of the unlimited split;
+    if there are no more than `m` words that is all, otherwise ONE more piece follows: the rest of the
+    input verbatim from the start of word `m+1` on (a suffix of the input that starts with a
+    non-separator and holds exactly the remaining words' items) -/
+theorem split_grouping_maxsplit (p : α → Bool) (m : Nat) (src : List α) :
+    ((split p true none src).length ≤ m → split p true (some (m : Int)) src = split p true none src) ∧
+    (m < (split p true none src).length → ∃ rest,
+        split p true (some (m : Int)) src = (split p true none src).take m ++ [rest] ∧
+        rest <:+ src ∧ (∃ y ys, rest = y :: ys ∧ p y = false) ∧
+        rest.filter (fun x => !p x) = ((split p true none src).drop m).flatten) := by
+  rw [split_eq_pySplit, split_eq_pySplit]
+  simp only [pySplit, Option.map_some, Option.map_none, Int.toNat_natCast, ↓reduceIte]
+  exact pySplitWs_limit p src.length src (Nat.le_refl _) m
+
+example : split (fun x => decide (x = 0)) false (some 2) [1, 0, 2, 0, 0, 3] = [[1], [2], [0, 3]] := by decide
+example : [0].intercalate [[1], [2], [0, 3]] = [1, 0, 2, 0, 0, 3] ∧
+    ([1, 0, 2, 0, 0, 3].countP (fun x => decide (x = 0))) = 3 := by decide
+example : split (fun x => x == 0) true none [0, 1, 0, 0, 2, 0, 3, 0] = [[1], [2], [3]] ∧
+    split (fun x => x == 0) true (some 1) [0, 1, 0, 0, 2, 0, 3, 0] = [[1], [2, 0, 3, 0]] := by decide
+
+/-- `sep=None` splitting is explicit-separator splitting with the empty pieces dropped
+    (`s.split() == [w for w in s.split(sep) if w]`); with `split_sep_unique` this pins the grouping mode down
+    as completely as the separator mode -/
+theorem split_grouping_eq_filter (p : α → Bool) (src : List α) :
+    split p true none src = (split p false none src).filter (fun g => !g.isEmpty) := by
+  rw [split_eq_pySplit, split_eq_pySplit]
+  simp only [pySplit, Option.map_none, ↓reduceIte, Bool.false_eq_true]
+  exact (ws_eq_filter_sep p src).1
+
+example : (split (fun x => x == 0) false none [0, 1, 0, 0, 2]).filter (fun g => !g.isEmpty) = [[1], [2]] := by decide
+
+/-! ### the `sep` argument as passed (dispatch of `split_iter`) and `maxsplit = int(maxsplit)` -/
+
+/-- `split` as called is the item-wise `str.split` for the separator test the dispatch selects -/
+theorem splitS_eq_pySplit (eqv : α → α → Bool) (isNone : α → Bool) (sep : Sep α) (maxsplit : Option Param)
+    (src : List α) :
+    splitS eqv isNone sep maxsplit src =
+      pySplit (sepFunc eqv isNone sep) sep.isNone ((maxsplit.map Param.toInt).map Int.toNat) src :=
+  split_eq _ _ _ _
+
+/-- which test each kind of `sep` selects; only `sep=None` groups -/
+theorem split_sep_dispatch (eqv : α → α → Bool) (isNone : α → Bool) (x v c : α) (vs : List α) (f : α → Bool) :
+    sepFunc eqv isNone .none x = isNone x ∧
+    sepFunc eqv isNone (.value v) x = eqv x v ∧
+    sepFunc eqv isNone (.text [c]) x = eqv x c ∧
+    (sepFunc eqv isNone (.coll vs) x = true ↔ ∃ w ∈ vs, eqv x w = true) ∧
+    sepFunc eqv isNone (.func f) x = f x ∧
+    (∀ s : Sep α, s.isNone = true ↔ s = .none) := by
+  refine ⟨rfl, rfl, rfl, by simp [sepFunc], rfl, ?_⟩
+  intro s; cases s <;> simp [Sep.isNone]
+
+/-- a str / bytes separator is a scalar (`is_scalar`): unless it is a single character it equals no
+    item, so nothing is split (it is NOT treated as a collection of characters) -/
+theorem split_text_sep (eqv : α → α → Bool) (isNone : α → Bool) (cs : List α) (h : cs.length ≠ 1)
+    (maxsplit : Option Param) (src : List α) :
+    splitS eqv isNone (.text cs) maxsplit src = [src] := by
+  rw [splitS_eq_pySplit]
+  have hf : sepFunc eqv isNone (.text cs) = fun _ => false := by
+    match cs, h with
+    | [], _ => rfl
+    | [_], h => exact absurd rfl h
+    | _ :: _ :: _, _ => rfl
+  simp only [Sep.isNone, pySplit, Bool.false_eq_true, ↓reduceIte, hf]
+  exact pySplitSep_free _ _ _ (fun _ _ => rfl)
+
+example : splitS (fun x y => x == y) (fun x => x == 0) (.text [1, 2]) none [1, 2, 1, 2] = [[1, 2, 1, 2]] := by decide
+example : splitS (fun x y => x == y) (fun x => x == 0) (.coll [1, 2]) (some (.halves 3)) [1, 3, 2, 4, 1] =
+    [[], [3, 2, 4, 1]] := by decide
+
 /-! ## lstrip / rstrip / strip -/
 
 theorem lstrip_eq_pyLstrip (p : α → Bool) (src : List α) : lstrip p src = pyLstrip p src :=
@@ -219,6 +317,24 @@ theorem unique_first_occurrences (f : α → κ) (src : List α) :
   · exact h
 
 example : unique (fun x => x % 3) [4, 1, 5, 7, 2, 3] = [4, 5, 3] := by decide
+
+/-- the `key` argument as passed: `None` keys an item by itself, a callable is used as it is, an attribute
+    name keys by the attribute and falls back on the item itself when the attribute is missing -/
+theorem key_dispatch (self : α → κ) (f : α → κ) (g : α → Option κ) (x : α) :
+    keyFunc self .none x = self x ∧
+    keyFunc self (.func f) x = f x ∧
+    (∀ k, g x = some k → keyFunc self (.attr g) x = k) ∧
+    (g x = none → keyFunc self (.attr g) x = self x) := by
+  refine ⟨rfl, rfl, fun k h => by simp [keyFunc, h], fun h => by simp [keyFunc, h]⟩
+
+/-- ... so with an attribute no item has, `unique` behaves as with no key at all -/
+theorem unique_attr_missing (self : α → κ) (g : α → Option κ) (src : List α) (h : ∀ x ∈ src, g x = none) :
+    unique (keyFunc self (.attr g)) src = unique self src :=
+  uniqueLoop_congr _ _ src [] (fun x hx => by simp [keyFunc, h x hx])
+
+example : unique (keyFunc (fun x => x) (.attr fun x => if x < 3 then some 0 else none)) [1, 2, 5, 5, 6] = [1, 5, 6] := by
+  decide
+example : ∀ x ∈ [5, 6, 5], (fun x : Nat => if x < 3 then some 0 else none) x = none := by decide
 
 /-! ## redundant -/
 
@@ -364,6 +480,93 @@ theorem chunk_ranges_cover (size cs off ov : Nat) (align : Bool) (hsz : 0 < size
 theorem chunk_ranges_empty_input (cs off ov : Nat) (align : Bool) (hov : ov < cs) :
     chunkRangesNat 0 cs off ov align = if align then [(off, off)] else [] :=
   chunkRangesNat_zero cs off ov align hov
+
+/-- every range except the last is exactly `chunk_size` long (with `align=True`: except the first,
+    which is `chunk_size - offset % step` long, and the last) and ends before the stop: no range is
+    redundant -/
+theorem chunk_ranges_full_except_last (size cs off ov : Nat) (align : Bool) (hsz : 0 < size) (hov : ov < cs) :
+    (∀ r ∈ (chunkRangesNat size cs off ov align).dropLast, r.2 < off + size) ∧
+    (∀ r ∈ (if align then (chunkRangesNat size cs off ov align).tail
+            else chunkRangesNat size cs off ov align).dropLast, r.2 = r.1 + cs) ∧
+    (align = true → (chunkRangesNat size cs off ov align).head? =
+        some (off, min (off + (cs - off % (cs - ov))) (off + size))) :=
+  chunkRangesNat_full size cs off ov align hsz hov
+
+/-- without `align` the laws determine the output: ANY non-empty list of ranges that starts at the offset,
+    steps back by exactly the overlap, has full-length ranges ending before the stop except for a last
+    one of length 1..chunk_size ending at the stop, IS what `chunk_ranges` yields -/
+theorem chunk_ranges_unique (size cs off ov : Nat) (hov : ov < cs) (out : List (Nat × Nat))
+    (hne : out ≠ [])
+    (hhead : out.head?.map (·.1) = some off)
+    (hchain : ∀ ab ∈ out.zip out.tail, ab.2.1 + ov = ab.1.2)
+    (hfull : ∀ r ∈ out.dropLast, r.2 = r.1 + cs ∧ r.2 < off + size)
+    (hlast : out.getLast?.map (·.2) = some (off + size))
+    (hlastlen : ∀ r, out.getLast? = some r → r.1 < r.2 ∧ r.2 ≤ r.1 + cs) :
+    out = chunkRangesNat size cs off ov false := by
+  have h := crLoop_unique (off + size) cs ov hov out off size
+    { ne := hne, head := hhead, chain := hchain, full := hfull, last := hlast, lastlen := hlastlen }
+    (by omega)
+  simpa [chunkRangesNat] using h
+
+/-! ## numeric arguments as passed: `int(value)`, `_validate_positive_int` -/
+
+/-- `int()` of a float truncates toward zero (`h` halves: `int(h/2)`) -/
+theorem pyInt_trunc (h : Int) :
+    (0 ≤ h → 2 * (Param.halves h).toInt ≤ h ∧ h < 2 * (Param.halves h).toInt + 2) ∧
+    (h ≤ 0 → h ≤ 2 * (Param.halves h).toInt ∧ 2 * (Param.halves h).toInt - 2 < h) := by
+  rw [toInt_halves]
+  split <;> constructor <;> intro _ <;> omega
+
+/-- `_validate_positive_int` accepts exactly the arguments whose `int()` is positive (non-negative when
+    not strict) and returns that int; everything else is a ValueError -/
+theorem validatePositiveInt_spec (p : Param) (strict : Bool) :
+    (validatePositiveInt p strict = .ok p.toInt ↔ (if strict then 0 < p.toInt else 0 ≤ p.toInt)) ∧
+    (validatePositiveInt p strict = .error .valueError ↔ ¬ (if strict then 0 < p.toInt else 0 ≤ p.toInt)) := by
+  unfold validatePositiveInt
+  cases strict <;> by_cases h : p.toInt < 0 <;> by_cases h0 : p.toInt = 0 <;> simp [h, h0] <;> omega
+
+/-- `chunked` / `chunked_iter` as called behave as on `int(size)`; a float `count` is rejected by
+    `islice` (ValueError), ints and bools count as themselves -/
+theorem chunkedP_eq (size : Param) (fill : Option α) (src : List α) :
+    chunkedIterP size fill src = chunkedIter size.toInt fill src ∧
+    chunkedP size none fill src = chunked size.toInt none fill src ∧
+    (∀ cp c, cp.index? = some c → chunkedP size (some cp) fill src = chunked size.toInt (some c) fill src) ∧
+    (∀ cp, cp.index? = none → chunkedP size (some cp) fill src = .error .valueError) := by
+  refine ⟨chunkedIterP_eq size fill src, chunkedP_none size fill src,
+    fun cp c hc => chunkedP_some size cp c hc fill src, fun cp hc => by simp [chunkedP, hc]⟩
+
+/-- hence the chunk laws hold for every accepted size argument (`3`, `3.0`, `3.5`, `True`, ...) -/
+theorem chunked_param_concat (size : Param) (hs : 0 < size.toInt) (src : List α) :
+    ∃ out, chunkedP size none none src = .ok out ∧ out.flatten = src ∧
+      (∀ c ∈ out.dropLast, c.length = size.toInt.toNat) ∧
+      (∀ c ∈ out, 1 ≤ c.length ∧ c.length ≤ size.toInt.toNat) := by
+  obtain ⟨out, h1, h2⟩ := chunked_concat hs src
+  obtain ⟨out', h1', h3, h4⟩ := chunked_sizes hs src
+  rw [h1] at h1'
+  cases h1'
+  exact ⟨out, by rw [chunkedP_none]; exact h1, h2, h3, h4⟩
+
+/-- `windowed` as called: `itertools.tee` takes an int or a bool and raises TypeError for a float -/
+theorem windowedP_eq (size : Param) (fill : Option α) (src : List α) :
+    (∀ n, size.index? = some n → windowedP size fill src = windowed n fill src) ∧
+    (size.index? = none → windowedP size fill src = .error .typeError) := by
+  refine ⟨fun n h => by simp [windowedP, h], fun h => by simp [windowedP, h]⟩
+
+/-- `chunk_ranges` as called behaves as on the `int()` of its four numbers -/
+theorem chunkRangesP_eq (size cs off ov : Param) (align : Bool) :
+    chunkRangesP size cs off ov align = chunkRanges size.toInt cs.toInt off.toInt ov.toInt align :=
+  chunkRangesP_eq' size cs off ov align
+
+example : (Param.halves 5).toInt = 2 ∧ (Param.halves (-1)).toInt = 0 ∧ (Param.halves (-5)).toInt = -2 ∧
+    (Param.bool true).toInt = 1 := by decide
+example : chunkedP (.halves 5) none none [0, 1, 2, 3, 4] = .ok [[0, 1], [2, 3], [4]] := by rfl
+example : chunkedP (.int 2) (some (.halves 2)) none [0, 1, 2] = .error .valueError := by rfl
+example : chunkedP (.halves 1) none none [0, 1, 2] = .error .valueError := by rfl
+example : windowedP (.bool true) none [5, 6] = .ok [[5], [6]] ∧
+    windowedP (.halves 4) none [5, 6] = .error .typeError := ⟨by rfl, by rfl⟩
+example : chunkRangesP (.halves 21) (.int 4) (.bool true) (.halves (-1)) false = .ok [(1, 5), (5, 9), (9, 11)] := by
+  rfl
+example : [(10, 15), (13, 18), (16, 20)] = chunkRangesNat 10 5 10 2 false := by decide
 
 example : chunkRangesNat 15 5 3 1 true = [(3, 5), (4, 9), (8, 13), (12, 17), (16, 18)] := by decide
 example : chunkRangesNat 10 5 10 2 false = [(10, 15), (13, 18), (16, 20)] := by decide
